@@ -404,7 +404,7 @@ def machine(tier, stats, last_fail):
 
 
 def enumerate_cases(tier):
-    cases = [{"kind": "xproc"}] + [{"kind": "interleave", "other": o} for o in ("construct-only", "same-request", "another-request")]
+    cases = [{"kind": "xproc"}] + [{"kind": "interleave", "other": o} for o in ("construct-only", "same-request", "another-request", "forked-same-instance")]
     # which request kinds get their stored entry cut: all footprint requests; offsets: sampled / all
     for i, (name, req) in enumerate(REQUESTS):
         if not req["footprint"]:
@@ -504,6 +504,8 @@ def _check_interleave(case):
     out = Outcome()
     out.label("interleaved-store", "other=" + case["other"])
     i = NAMES.index("base")
+    if case["other"] == "forked-same-instance":
+        return _check_forked_instance(out, i)
     others = {"construct-only": [], "same-request": [i], "another-request": [NAMES.index("meas_pt")]}[case["other"]]
     d = tempfile.mkdtemp(prefix="c15-inter-", dir=str(env.scratch()))
     orig = numpy.savez
@@ -543,6 +545,65 @@ def _check_interleave(case):
                 out.bad(f"solve after an overlapped store differs from the uncached result: {_same(again, _uncached(i))}")
         except Exception as e:
             out.bad(f"solve after an overlapped store raised {type(e).__name__}: {e}")
+        out.nontrivial = True
+    finally:
+        numpy.savez = orig
+        shutil.rmtree(d, ignore_errors=True)
+    return out
+
+
+def _check_forked_instance(out, i):
+    """One cache OBJECT, created before a fork, used by parent and child for the same request at overlapping times (a
+    pool whose workers inherit the cache): while the parent is between writing its temporary file and renaming it, the
+    forked child stores the same entry through the inherited object.  Neither may fail."""
+    import numpy
+
+    from bldfm.cache import GreensFunctionCache
+
+    d = tempfile.mkdtemp(prefix="c15-fork-", dir=str(env.scratch()))
+    orig = numpy.savez
+    state = {}
+
+    def savez(*a, **k):
+        r = orig(*a, **k)
+        if "pid" not in state and os.getpid() == state["parent"]:
+            state["pid"] = pid = os.fork()
+            if pid == 0:  # child: same cache object, same request
+                code = 0
+                try:
+                    numpy.savez = orig
+                    got = _solve(REQUESTS[i][1], cache=cache)
+                    code = 3 if _same(got, _uncached(i)) else 0
+                except BaseException:
+                    code = 4
+                os._exit(code)
+            _, status = os.waitpid(pid, 0)
+            state["child"] = os.waitstatus_to_exitcode(status)
+        return r
+
+    try:
+        cache = GreensFunctionCache(d)
+        state["parent"] = os.getpid()
+        _uncached(i)  # memo filled before the fork so that the child can compare
+        numpy.savez = savez
+        try:
+            got = _solve(REQUESTS[i][1], cache=cache)
+        except Exception as e:
+            out.bad(f"a solve whose store was overlapped by a forked child storing the same entry through the same cache object "
+                    f"raised {type(e).__name__}: {e}")
+            got = None
+        finally:
+            numpy.savez = orig
+        if "child" not in state:
+            out.label("store-not-reached")
+            return out
+        if state["child"] != 0:
+            out.bad(f"the forked child using the inherited cache object {'raised' if state['child'] == 4 else 'got a wrong result' if state['child'] == 3 else 'exited with ' + str(state['child'])}")
+        if got is not None and _same(got, _uncached(i)):
+            out.bad(f"overlapped solve differs from the uncached result: {_same(got, _uncached(i))}")
+        again = _solve(REQUESTS[i][1], cache=GreensFunctionCache(d))
+        if _same(again, _uncached(i)):
+            out.bad(f"solve after an overlapped store differs from the uncached result: {_same(again, _uncached(i))}")
         out.nontrivial = True
     finally:
         numpy.savez = orig
